@@ -208,3 +208,25 @@ func MapRange(site int, m reflect.Value) *MapIter {
 	it.keys, it.vals = keys, vals
 	return it
 }
+
+// MapKeys and MapValues replace maps.Keys / maps.Values of the standard library (iterators over a map in Go's random
+// order) in the instrumented code; maps.All is replaced by MapSeq.
+func MapKeys[M ~map[K]V, K comparable, V any](site int, m M) iter.Seq[K] {
+	return func(yield func(K) bool) {
+		for k := range MapSeq(site, m) {
+			if !yield(k) {
+				return
+			}
+		}
+	}
+}
+
+func MapValues[M ~map[K]V, K comparable, V any](site int, m M) iter.Seq[V] {
+	return func(yield func(V) bool) {
+		for _, v := range MapSeq(site, m) {
+			if !yield(v) {
+				return
+			}
+		}
+	}
+}
